@@ -36,6 +36,7 @@ OBLIGATIONS = [
     "VgiVerif.C25.C25_access",
     "VgiVerif.C25.C25_delete",
     "VgiVerif.C25.C25_delete_uniform",
+    "VgiVerif.C25.C25_routes",
 ]
 TRUSTED = [
     "XChaCha20-Poly1305 as an ideal AEAD (symbolic): an envelope opens iff key, AAD and version are those it was sealed with; "
@@ -85,7 +86,8 @@ ATTACKER_KEY = b"attacker-key-attacker-key-32byte"
 FARMS: list[list[dict[str, Any]]] = [
     [{"server_id": "w0", "key": 0, "default_ttl": 300}, {"server_id": "w1x", "key": 0, "default_ttl": 50},
      {"server_id": "abcdef012345", "key": 1, "default_ttl": 10}],
-    [{"server_id": "abcdef012345", "key": 0, "default_ttl": 20}, {"server_id": "abcdef012346", "key": 0, "default_ttl": 20},
+    [{"server_id": "abcdef012345", "key": 0, "default_ttl": 20, "prefix": "/vgi"},
+     {"server_id": "abcdef012346", "key": 0, "default_ttl": 20, "prefix": "/vgi"},
      {"server_id": "", "key": 0, "default_ttl": 5}],
     [{"server_id": "a" * 255, "key": 0, "default_ttl": 7}, {"server_id": "wé", "key": 0, "default_ttl": 7},
      {"server_id": "w\ufffd\ufffd", "key": 0, "default_ttl": 7}],
@@ -272,7 +274,10 @@ class History:
                     tags.append("mut:" + op["wire"]["mut"][0])
             if k == "call":
                 actions = op["script"]
-                obs = farm.post(wk, ident, op.get("accept"), wire, actions, op.get("swallow", False), client=op.get("client", 0))
+                method = op.get("method", "run")
+                msfx = "" if method == "run" else f":method={method}"
+                tags.append("method:run" if method == "run" else "method:exempt-lookalike")
+                obs = farm.post(wk, ident, op.get("accept"), wire, actions, op.get("swallow", False), client=op.get("client", 0), method=method)
                 ctx.case({"farm": self.farm_idx, "i": len(self.ops), "op": op, "h": self.hid}, nontrivial=bool(eff), tags=tags + [f"out:{obs['outcome'] if isinstance(obs['outcome'], str) else 'failed'}"])
                 # -------- O
                 if isinstance(obs["outcome"], dict) and obs["outcome"]["failed"].startswith("other:"):
@@ -283,13 +288,13 @@ class History:
                     if served and g is None:
                         cls = "minted-wire" if any(m["wire"] == eff for m in self.mints) else "unminted-wire"
                         why = self.why_no_grant(wk, ident, eff)
-                        ctx.fail(self.case(), f"C25:dispatch-without-grant:{cls}:{why}",
+                        ctx.fail(self.case(), f"C25:dispatch-without-grant:{cls}:{why}{msfx}",
                                  f"worker {wk} dispatched the method for identity {ident} presenting a value that is not a live token minted here for it ({why})")
                         self.ok = False
                     elif served and g is not None:
                         seen = [x[1] for x in obs["log"] if isinstance(x, list) and x[0] == "u"]
                         if actions and actions[0] == "u" and seen[:1] != [g["label"]]:
-                            ctx.fail(self.case(), "C25:wrong-session-bound", f"ctx.session is {seen[:1]}, token designates state {g['label']}")
+                            ctx.fail(self.case(), f"C25:wrong-session-bound{msfx}", f"ctx.session is {seen[:1]}, token designates state {g['label']}")
                             self.ok = False
                     elif not served:
                         if obs["outcome"] != "lost":
@@ -297,7 +302,7 @@ class History:
                                      f"a refused presentation must be a session_lost error, got {obs['etype']} kind={obs['kind']}")
                             self.ok = False
                         elif g is not None and ascii_worker:
-                            ctx.fail(self.case(), "C25:legit-presentation-lost", "the minting worker refused a live token under the opening identity")
+                            ctx.fail(self.case(), f"C25:legit-presentation-lost{msfx}", "the minting worker refused a live token under the opening identity")
                             self.ok = False
                 else:
                     if obs["dispatched"] != 1:
@@ -314,7 +319,7 @@ class History:
                         exp = int(ent.expires_at) if ent is not None else -1
                         self.mints.append({"wire": obs["session"], "wk": wk, "ident": canon_ident(ident), "label": label, "sid": sid, "expires": exp})
                 # -------- K
-                mop = {"op": "call", "wk": wk, "rq": farm.model_req(ident, op.get("accept"), wire, op.get("client", 0)),
+                mop = {"op": "call", "wk": wk, "rq": farm.model_req(ident, op.get("accept"), wire, op.get("client", 0), method),
                        "script": [S.model_action(a) for a in actions], "swallow": op.get("swallow", False)}
                 r = self.model_step(mop)
                 if r is not None:
@@ -402,17 +407,20 @@ def gen_history(rng: Any, farm_idx: int, length: int) -> list[Any]:
             n_tok += 1  # optimistic; an op that names a missing token is skipped
             # immediately: the exact value under every (worker, identity) pair
             if rng.random() < 0.5:
+                mth = rng.choice(S.METHODS)
                 for w2 in range(nw):
                     for i2 in range(len(IDENTS)):
-                        ops.append({"op": "call", "wk": w2, "id": i2, "wire": {"tok": n_tok - 1, "mut": None}, "script": ["u"]})
+                        ops.append({"op": "call", "wk": w2, "id": i2, "wire": {"tok": n_tok - 1, "mut": None}, "script": ["u"], "method": mth})
         elif c < 0.45:
             t = rng.randrange(n_tok)
             legit = rng.random() < 0.6
             script = rng.choice([["u"], ["u"], ["u", "c"], ["u", "n", "u"]])
-            ops.append({"op": "call", "wk": wk, "id": idn, "wire": {"tok": t, "mut": None}, "script": script, "legit": legit})
+            ops.append({"op": "call", "wk": wk, "id": idn, "wire": {"tok": t, "mut": None}, "script": script, "legit": legit,
+                        "method": rng.choice(S.METHODS + ["run", "run"])})
         elif c < 0.65:
             t = rng.randrange(n_tok)
-            ops.append({"op": "call", "wk": wk, "id": idn, "wire": {"tok": t, "mut": "GEN"}, "script": ["u"], "legit": True})
+            ops.append({"op": "call", "wk": wk, "id": idn, "wire": {"tok": t, "mut": "GEN"}, "script": ["u"], "legit": True,
+                        "method": rng.choice(S.METHODS + ["run", "run"])})
         elif c < 0.78:
             t = rng.randrange(n_tok)
             ops.append({"op": "delete", "wk": wk, "id": idn, "wire": rng.choice([{"tok": t, "mut": None}] * 4 + [{"tok": t, "mut": "GEN"}, None, {"raw": ""}, {"raw": "zz"}]),
@@ -630,6 +638,15 @@ def phase_histories(ctx: Any) -> None:
 
 
 CORPUS: list[dict[str, Any]] = [
+    # methods whose names merely start like the exempt /health endpoint: same rules as any method (with and without URL prefix)
+    *[{"farm": f, "ops": [
+        {"op": "call", "wk": 0, "id": 1, "accept": "true", "wire": None, "script": [["o", 1, None]], "method": "health_report"},
+        *[{"op": "call", "wk": w, "id": i, "wire": {"tok": 0, "mut": None}, "script": ["u"], "method": m}
+          for m in ("healthcheck", "health_report", "healthz", "run") for w in (0, 1) for i in (1, 2, 0)],
+        {"op": "call", "wk": 0, "id": 1, "wire": {"tok": 0, "mut": ["trunc", 40]}, "script": ["u"], "method": "healthcheck"},
+        {"op": "call", "wk": 0, "id": 1, "wire": {"tok": 0, "mut": None}, "script": ["u", "c"], "method": "healthz"},
+        {"op": "call", "wk": 0, "id": 1, "wire": {"tok": 0, "mut": None}, "script": ["u"], "method": "healthcheck"},
+    ]} for f in (0, 1)],
     # open, present everywhere, close through the method, present again, DELETE twice
     {"farm": 0, "ops": [
         {"op": "call", "wk": 0, "id": 1, "accept": "true", "wire": None, "script": [["o", 1, None]]},
